@@ -157,12 +157,16 @@ struct Formed {
 
 /// Deterministically build and form a cluster (same arguments ⇒ same run).
 fn formed(seed: u64, n: usize, cfg: &Cfg, renew: Renew, lat: (u64, u64), acc: &mut Acc) -> Result<Option<Formed>, V> {
+    formed_with(seed, n, cfg, renew, lat, Join::SeqToFirst, acc)
+}
+
+fn formed_with(seed: u64, n: usize, cfg: &Cfg, renew: Renew, lat: (u64, u64), join: Join, acc: &mut Acc) -> Result<Option<Formed>, V> {
     let mut sim = Sim::new(seed, CodecKind::Hand, lat);
     for a in 0..n {
         sim.add(a as u16, cfg.clone(), renew, HdlCfg::disabled(), None);
     }
     let mut nop = |_: &Sim, _: usize, _: &CallRec| -> Result<(), V> { Ok(()) };
-    let last = form(&mut sim, n, Join::SeqToFirst, cfg.p, acc, &mut nop)?;
+    let last = form(&mut sim, n, join, cfg.p, acc, &mut nop)?;
     let bound = 4 * n as u64 + 4;
     let mut ok = false;
     for k in 1..=bound {
@@ -497,10 +501,13 @@ fn c05_case(ctx: &Ctx, case: u64, acc: &mut Acc) -> Verdict {
         pg: if r.chance(1, 2) { Some((p / 2, 2)) } else { None },
     };
     let sim_seed = r.next();
-    let Some(mut f) = formed(sim_seed, n, &cfg, Renew::Bump, (1, R / 4), acc)? else {
+    // joins staggered (timers of different members out of phase) or all at the same instant (aligned timers)
+    let join = *r.pick(&[Join::SeqToFirst, Join::SeqToFirst, Join::BurstToFirst, Join::Chain]);
+    let Some(mut f) = formed_with(sim_seed, n, &cfg, Renew::Bump, (1, R / 4), join, acc)? else {
         acc.inconclusive += 1;
         return Ok(());
     };
+    acc.tally(&format!("c05_join/{join:?}"), 1);
     let mut nop = |_: &Sim, _: usize, _: &CallRec| -> Result<(), V> { Ok(()) };
     let asymmetric = case % 5 == 4;
     let t0 = f.sim.now;
